@@ -312,6 +312,7 @@ pub fn run_c15(tier: &str, seed: u64) -> i32 {
     }
     let z = ZobristHasher::create_zobrist_hasher();
     crate::c15::systematic(&mut acc, &z);
+    minimise_all(&mut acc, |v| crate::c15::minimise(v, &z));
     let bin = std::env::var("VERIF_REAL_BIN").unwrap_or_default();
     let mut cli_done = false;
     if !bin.is_empty() && std::path::Path::new(&bin).exists() {
